@@ -171,8 +171,42 @@ func TestVerifBoundedDiff(t *testing.T) {
 		}
 	}
 	rec(0, "")
+	// a second, small family with carriage returns inside lines (CRLF against LF texts)
+	var crTexts []string
+	var rec2 func(k int, cur string)
+	rec2 = func(k int, cur string) {
+		crTexts = append(crTexts, cur)
+		if cur != "" {
+			crTexts = append(crTexts, strings.TrimSuffix(cur, "\n"))
+		}
+		if k == 3 {
+			return
+		}
+		for _, l := range []string{"a\n", "a\r\n", "b\r\n"} {
+			rec2(k+1, cur+l)
+		}
+	}
+	rec2(0, "")
 	cases, nontrivial, fails := 0, 0, 0
 	first := ""
+	for _, a := range crTexts {
+		for _, b := range crTexts {
+			cases++
+			d, pmsg := verifDiffNoPanic(a, b)
+			if a != b {
+				nontrivial++
+			}
+			if pmsg == "" {
+				pmsg = verifCheckDiff(a, b, d)
+			}
+			if pmsg != "" {
+				fails++
+				if first == "" {
+					first = fmt.Sprintf("Diff(%q, %q): %s; output %q", a, b, pmsg, d)
+				}
+			}
+		}
+	}
 	for _, a := range texts {
 		for _, b := range texts {
 			cases++
